@@ -7,6 +7,7 @@ import suite_join
 import suite_sort
 import suite_group
 import suite_heap
+import suite_vec
 
 
 def c04(rep, tier, seed):
@@ -132,7 +133,47 @@ def c16(rep, tier, seed):
     suite_heap.trace(rep, tier, seed, cl)
 
 
+VEC_ASSUME = [
+    "Python's own scalar operation is the oracle for element values (the spec fixes operands, order, None and errors)",
+    "cases whose scalar operation Python itself does not define are skipped and counted",
+]
+C05_CL = ("elementwise", "shape", "length_mismatch")
+C06_CL = ("none_handling", "none_compare", "isna", "dropna", "dropna_nullable", "fillna", "fillna_nullable", "reduce_none", "len_counts_none")
+C07_CL = ("slice", "slice_kind", "mask", "mask_length", "int_index", "table_rows", "compare", "compare_dtype")
+C08_CL = ("assign", "assign_shape", "assign_reject", "atomic", "fault_swallowed", "incompatible_accepted", "reject_class",
+          "compatible_rejected", "promotion_dtype", "promotion_contents")
+
+
+def c05(rep, tier, seed):
+    rep.assumptions += VEC_ASSUME
+    suite_vec.mc(rep, tier)
+    suite_vec.gen(rep, tier, ["elem"], C05_CL)
+
+
+def c06(rep, tier, seed):
+    rep.assumptions += VEC_ASSUME + ["all-None min/max/mean/stdev: only 'None is not treated as a value' is demanded"]
+    suite_vec.mc(rep, tier)
+    suite_vec.gen(rep, tier, ["na", "elem"], C06_CL)
+
+
+def c07(rep, tier, seed):
+    rep.assumptions += VEC_ASSUME + ["SliceIdx is cross-validated against Python's own list(range(n))[slice]; a disagreement is a spec bug (exit 2)"]
+    suite_vec.mc(rep, tier)
+    suite_vec.gen(rep, tier, ["slice", "mask", "int", "elem"], C07_CL)
+
+
+def c08(rep, tier, seed):
+    rep.assumptions += VEC_ASSUME + ["a wider value into a bool column: promotion or SerifTypeError-with-nothing-changed are both accepted"]
+    suite_vec.mc_assign(rep)
+    suite_vec.gen(rep, tier, ["assign", "atype"], C08_CL)
+    suite_heap.gen(rep, tier, "tables", ("contents@target", "write_error", "setattr_error"))
+
+
 CHECKS = {
+    "C05": c05,
+    "C06": c06,
+    "C07": c07,
+    "C08": c08,
     "C01": c01,
     "C02": c02,
     "C15": c15,
